@@ -30,9 +30,12 @@ impl NotificationHandler<DidOpenTextDocument> for DidOpenTextDocumentHandler {
 
 impl NotificationHandler<DidChangeTextDocument> for DidChangeTextDocumentHandler {
     fn handle(&self, ctx: &mut LspContext, params: DidChangeTextDocumentParams) -> MosResult<()> {
-        let text_changes = params.content_changes.first().unwrap();
-        register_document(ctx, &params.text_document.uri, &text_changes.text);
-        publish_diagnostics(ctx)?;
+        // Documents are synchronised in full, so the last change holds the current contents
+        // (and a notification without any change leaves the document as it is)
+        if let Some(text_changes) = params.content_changes.last() {
+            register_document(ctx, &params.text_document.uri, &text_changes.text);
+            publish_diagnostics(ctx)?;
+        }
         Ok(())
     }
 }
